@@ -180,7 +180,14 @@ def lockwait(rng, frames, **over):
     up to wait_ms while packets arrive, and advances in the same call once the frame is confirmed."""
     n = over.pop("npeers", None) or rng.choice([2, 2, 3])
     p = general(rng, frames, npeers=n, window=0, spectators=over.pop("spectators", rng.choice([0, 0, 1])), **over)
-    w = rng.choice([1, 3, 8, 16, 16, 40])
+    w = rng.choice([1, 3, 8, 16, 40, 0, 0])
+    if w == 0:
+        # advance_frame_with_wait(): one frame duration, 1_000_000 / fps microseconds; on the millisecond
+        # clock the loop runs while now < deadline, i.e. for ceil(micros / 1000) iterations
+        fps = rng.choice([60, 60, 30, 50])
+        p["cfg"]["fps"] = fps
+        w = (1000000 // fps + 999) // 1000
+        p["wait_default"] = True
     p["wait_ms"] = w
     p["cfg"]["wait_ms"] = w
     p["cfg"]["waitapi"] = True
